@@ -117,15 +117,16 @@ theorem side_image (menv : Machine.Env) (k : Nat) (v : JV)
   rw [SJ.Proofs.RoundTrip.depth_image]
   exact hd
 
-/-- `Value` targets. `hF`: the floats of the value are read back from `ryu`'s text (`FloatsRoundTrip`) -/
-theorem agree_any {env : Env} (hflt : env.flt = false) (cfg' : FromValue.Cfg) (hap : cfg'.ap = false) (ext' : FromValue.Ext)
-    (f t : Nat) (v : JV) (hv : VOK v) (hd : DepthOK env t v)
+/-- `Value` targets, either build. `hfv`: `Value::deserialize(v)` rebuilds the value itself (without `arbitrary_precision`:
+    `rebuild_id`; with it: for the literals `Number::deserialize_any` hands back verbatim); `hF`: the floats of the value
+    are read back from `ryu`'s text (`FloatsRoundTrip`; vacuous for a value holding literals) -/
+theorem agree_any_g {env : Env} (hflt : env.flt = false) (cfg' : FromValue.Cfg) (ext' : FromValue.Ext)
+    (f t : Nat) (v : JV) (hv : VOKg v) (hd : DepthOK env t v)
     (hs : Spec.WF.shapeOK (SJ.Proofs.CanonM.specCfg env.cfg) v = true)
-    (hF : Spec.WF.floatsRT (SJ.Proofs.CanonM.specCfg env.cfg) ext v = true) :
+    (hF : Spec.WF.floatsRT (SJ.Proofs.CanonM.specCfg env.cfg) ext v = true)
+    (hfv : FromValue.fromValue cfg' ext' .any v = .ok (.any v)) :
     Agree1 (deTyped env (f + 1) t .any) (FromValue.fromValue cfg' ext' .any v) (T ext v) := by
   intro rest pos hsep
-  have hfv : FromValue.fromValue cfg' ext' .any v = .ok (.any v) := by
-    simp [FromValue.fromValue, SJ.Proofs.FromValue.rebuild_id cfg' ext' hap v (finiteFloats_of_shapeW v hv)]
   rw [hfv]
   simp only
   rw [deTyped_any]
@@ -148,12 +149,22 @@ theorem agree_any {env : Env} (hflt : env.flt = false) (cfg' : FromValue.Cfg) (h
       · decide
       · decide
       · rcases isWs_cases hw with rfl | rfl | rfl | rfl <;> decide
-  obtain ⟨val, hres, hm⟩ := machine_complete_pad (valEnv env) t (T ext v) _ (T_derives ext hext v hv) hside hsideU rest pos hfollow
+  obtain ⟨val, hres, hm⟩ := machine_complete_pad (valEnv env) t (T ext v) _ (T_derives_g ext hext v (valueLitsOK_of_vokg hv)) hside hsideU
+    rest pos hfollow
   have hc := SJ.Proofs.RoundTrip.canonM_image (unlim (valEnv env)).cfg ext hext v hsU hFU
   have := hres.1 rfl
   rw [hc] at this
   cases this
   rw [hm]
   rfl
+
+/-- `Value` targets without `arbitrary_precision`. `hF`: the floats of the value are read back from `ryu`'s text (`FloatsRoundTrip`) -/
+theorem agree_any {env : Env} (hflt : env.flt = false) (cfg' : FromValue.Cfg) (hap : cfg'.ap = false) (ext' : FromValue.Ext)
+    (f t : Nat) (v : JV) (hv : VOK v) (hd : DepthOK env t v)
+    (hs : Spec.WF.shapeOK (SJ.Proofs.CanonM.specCfg env.cfg) v = true)
+    (hF : Spec.WF.floatsRT (SJ.Proofs.CanonM.specCfg env.cfg) ext v = true) :
+    Agree1 (deTyped env (f + 1) t .any) (FromValue.fromValue cfg' ext' .any v) (T ext v) :=
+  agree_any_g ext hext hflt cfg' ext' f t v hv.g hd hs hF (by
+    simp [FromValue.fromValue, SJ.Proofs.FromValue.rebuild_id cfg' ext' hap v (finiteFloats_of_shapeW v hv)])
 
 end SJ.Proofs.Typed
